@@ -13,7 +13,7 @@ import (
 	"verifharness/internal/val"
 )
 
-var c09Floor = []string{"key", "key.missing", "key.on-array", "key.quoted", "index", "index.multi", "each", "each.flatten", "keep", "range", "range.begin", "range.end",
+var c09Floor = []string{"key", "key.missing", "key.on-array", "key.quoted", "key.quoted.steplike", "index", "index.multi", "each", "each.flatten", "keep", "range", "range.begin", "range.end",
 	"pipe", "pipe.string", "pipe.number", "pipe.on-array", "continue", "fn.mix", "fn.distinct", "fn.custom", "err.index-oob", "err.range-oob", "err.shape", "err.fn", "null.path", "readme.form"}
 
 func init() {
@@ -112,6 +112,8 @@ func c09Value(c *fw.Case, depth int) any {
 
 var c09Keys = []string{"id", "name", "tags", "addr", "city", "x", "y", "items", "user", "key", "v", "createdAt", "n1"}
 
+var c09StepLikeKeys = []string{"[0]", "[each]", "{id}", "{n1}", "(0:1)", "[1:2]", "keep=>x", "x::y", "each", "end", "[", "{", "a|b", "}"}
+
 func c09Object(c *fw.Case, depth int) map[string]any {
 	m := map[string]any{}
 	n := 1 + c.Intn(4)
@@ -123,6 +125,10 @@ func c09Object(c *fw.Case, depth int) map[string]any {
 	}
 	if c.Chance(0.1) {
 		m["a b"] = c09Scalar(c)
+	}
+	if c.Chance(0.12) {
+		// quoted keys are literal also when their text looks like a step
+		m[gen.Pick(c.R, c09StepLikeKeys)] = c09Value(c, depth)
 	}
 	return m
 }
@@ -396,6 +402,9 @@ func c09Selector(c *fw.Case, doc map[string]any, force string, feats *[]string) 
 			}
 			if ks.Quoted {
 				feat("key.quoted")
+				if k[0] == '[' || k[0] == '{' {
+					feat("key.quoted.steplike")
+				}
 			}
 			feat("key")
 			seg.Steps = append(seg.Steps, ks)
